@@ -337,6 +337,55 @@ def _fold_bound_constants(raw, blocks):
         raw["blocks"][b]["term"] = {"k": "goto", "target": tgt[0] if tgt else t["otherwise"], "span": t["span"], "folded": v}
 
 
+def _devirtualize(raw, raws):
+    """A call through a function pointer that, after inlining, is a plain local bound once to a named function of this crate
+    (`combine(self, rhs, HashSet::union)` -> `lazy_view(lhs, rhs)`) is a direct call of that function."""
+    defs = {}
+    for blk in raw["blocks"]:
+        for st in blk["stmts"]:
+            if st["k"] in ("assign", "set_discr"):
+                l = st["place"]["local"]
+                defs.setdefault(l, []).append(st if st["k"] == "assign" and not st["place"]["proj"] else None)
+        t = blk["term"]
+        if t["k"] == "call" and "dest" in t:
+            defs.setdefault(t["dest"]["local"], []).append(None)
+
+    def fn_of(op, depth=0):
+        if op["k"] == "const":
+            return op if op.get("fn") else None
+        if op["k"] not in ("copy", "move") or op["place"]["proj"] or depth > 12:
+            return None
+        l = op["place"]["local"]
+        if l <= raw["arg_count"]:
+            return None
+        ds = defs.get(l, [])
+        if len(ds) != 1 or ds[0] is None:
+            return None
+        rv = ds[0]["rv"]
+        if rv["k"] == "use" or (rv["k"] == "cast" and "ReifyFnPointer" in rv.get("cast", "")):
+            return fn_of(rv["op"], depth + 1)
+        return None
+    n = 0
+    for blk in raw["blocks"]:
+        t = blk["term"]
+        if t["k"] != "call" or t.get("callee") is not None or t["func"]["k"] == "const":
+            continue
+        c = fn_of(t["func"])
+        if c is None:
+            continue
+        want = strip_generics(c["fn"])
+        tgt = [r for r in raws if r["kind"] != "Closure" and strip_generics(r["path"]) == want]
+        if len(tgt) != 1:
+            continue
+        r = tgt[0]
+        t["func_indirect"] = t["func"]
+        t["func"] = c
+        t.update({"callee": c["fn"], "callee_args": c.get("fn_args"), "callee_dpath": r["dpath"], "unsafe": bool(r.get("unsafe")), "local": True,
+                  "intrinsic": False, "resolved": {"path": r["path"], "dpath": r["dpath"], "kind": "Item", "local": True}, "devirtualized": True})
+        n += 1
+    return n
+
+
 def _call_edges(raws):
     """body path -> list of (bb, callee path) for resolved local Item calls; and the set of functions used as values"""
     by_path = {r["path"]: r for r in raws}
@@ -531,6 +580,7 @@ def build_view(facts, policy, roles=None, max_rounds=6, protect=()):
                 if c in ready and c != p:
                     fb, fl = len(caller["blocks"]), len(caller["locals"])
                     inline_call(caller, bb, by_path[c])
+                    _devirtualize(caller, raws)
                     if sites[c] > 1 and _creates_closure(by_path[c]):
                         _clone_closures(d, raws, caller, by_path[c], fb, fl, clone_counter)
                     done.append((p, c))
